@@ -13,6 +13,7 @@ import RioModel.Proofs.FilterTok
 import RioModel.Proofs.FilterDom
 set_option linter.unusedSimpArgs false
 set_option linter.unusedVariables false
+set_option linter.unusedSectionVars false
 
 namespace Rio.Filter
 open Rio.Html Rio.Html.Tokenizer
@@ -591,5 +592,248 @@ theorem htmlTokenize?_text {tx y : Bytes} {c : Nat} {rest : Bytes} {ts' : List T
   rw [hro] at cr
   rw [tokenizeGo_full _ _ _ cr inv1 (inv_new _), tokenizeGo_fuel _ (tx.length - 1) _ [] _ hy]
   simp
+
+/-! ### a universal statement: all documents over a checked tag vocabulary -/
+
+/-- tags whose tokenisation in isolation is checked by evaluation -/
+structure Vocab where
+  /-- (name, display name, raw attribute text) of start tags (normal and void elements) -/
+  starts : List (Bytes × Bytes × Bytes)
+  /-- the same for self-closing tags -/
+  selfs : List (Bytes × Bytes × Bytes)
+  /-- (name, display name) of end tags -/
+  ends : List (Bytes × Bytes)
+
+def startsOpenerB (y : Bytes) : Bool :=
+  match y with
+  | 60 :: c :: _ => isOpener c
+  | _ => false
+
+theorem startsOpenerB_spec {y : Bytes} (h : startsOpenerB y = true) :
+    ∃ c rest, y = 60 :: c :: rest ∧ isOpener c = true := by
+  match y, h with
+  | 60 :: c :: rest, h => exact ⟨c, rest, rfl, h⟩
+
+/-- every tag of the vocabulary is, on its own, tokenised to its one expected token, completely, without reaching the
+end of its bytes' look-ahead, and begins with `<` + opener -/
+def Vocab.ok (V : Vocab) : Bool :=
+  V.starts.all (fun x => closedB (startTok x.1 x.2.1 x.2.2).raw [startTok x.1 x.2.1 x.2.2] &&
+    startsOpenerB (startTok x.1 x.2.1 x.2.2).raw) &&
+  V.selfs.all (fun x => closedB (selfTok x.1 x.2.1 x.2.2).raw [selfTok x.1 x.2.1 x.2.2] &&
+    startsOpenerB (selfTok x.1 x.2.1 x.2.2).raw) &&
+  V.ends.all (fun x => closedB (endTok x.1 x.2).raw [endTok x.1 x.2])
+
+def isVerb : Node → Bool
+  | .verb _ _ => true
+  | _ => false
+
+mutual
+  /-- documents over the vocabulary: text free of `<` (non-empty), normal / void / self-closing elements whose tags are
+  in the vocabulary -/
+  def simpleN (V : Vocab) : Node → Bool
+    | .verb raw _ => !raw.isEmpty && !raw.contains 60
+    | .el nm d at_ knd cs =>
+      match knd with
+      | .normal => V.starts.contains (nm, d, at_) && V.ends.contains (nm, d) && simpleL V cs
+      | .void => V.starts.contains (nm, d, at_)
+      | .selfClosing => V.selfs.contains (nm, d, at_)
+      | .raw => false
+  /-- … and no two adjacent text nodes (the tokenizer would see one text) -/
+  def simpleL (V : Vocab) : List Node → Bool
+    | [] => true
+    | n :: ns =>
+      simpleN V n &&
+      (match ns with
+       | [] => true
+       | m :: _ => !(isVerb n && isVerb m)) &&
+      simpleL V ns
+end
+
+def lastIsVerb : List Node → Bool
+  | [] => false
+  | [n] => isVerb n
+  | _ :: ns => lastIsVerb ns
+
+def StartsOpener (y : Bytes) : Prop := ∃ c rest, y = 60 :: c :: rest ∧ isOpener c = true
+
+theorem startsOpener_append {a : Bytes} (h : StartsOpener a) (b : Bytes) : StartsOpener (a ++ b) := by
+  obtain ⟨c, rest, rfl, hc⟩ := h
+  exact ⟨c, rest ++ b, rfl, hc⟩
+
+theorem startsOpener_endTok (nm d : Bytes) : StartsOpener (endTok nm d).raw :=
+  ⟨47, d ++ [62], by simp [endTok], by decide⟩
+
+section
+variable (V : Vocab) (hV : V.ok = true)
+include hV
+
+theorem vocab_start {x : Bytes × Bytes × Bytes} (h : V.starts.contains x = true) :
+    Closed (startTok x.1 x.2.1 x.2.2).raw [startTok x.1 x.2.1 x.2.2] ∧
+    StartsOpener (startTok x.1 x.2.1 x.2.2).raw := by
+  unfold Vocab.ok at hV
+  simp only [Bool.and_eq_true, List.all_eq_true] at hV
+  have := hV.1.1 x (by simpa using h)
+  exact ⟨closedB_sound this.1, startsOpenerB_spec this.2⟩
+
+theorem vocab_self {x : Bytes × Bytes × Bytes} (h : V.selfs.contains x = true) :
+    Closed (selfTok x.1 x.2.1 x.2.2).raw [selfTok x.1 x.2.1 x.2.2] ∧
+    StartsOpener (selfTok x.1 x.2.1 x.2.2).raw := by
+  unfold Vocab.ok at hV
+  simp only [Bool.and_eq_true, List.all_eq_true] at hV
+  have := hV.1.2 x (by simpa using h)
+  exact ⟨closedB_sound this.1, startsOpenerB_spec this.2⟩
+
+theorem vocab_end {x : Bytes × Bytes} (h : V.ends.contains x = true) :
+    Closed (endTok x.1 x.2).raw [endTok x.1 x.2] := by
+  unfold Vocab.ok at hV
+  simp only [Bool.and_eq_true, List.all_eq_true] at hV
+  exact closedB_sound (hV.2 x (by simpa using h))
+
+mutual
+  theorem simpleN_tok : ∀ (n : Node), simpleN V n = true →
+      ∀ (y : Bytes) (ts' : List Tok) (r : Bytes), htmlTokenize? y = some (ts', r) →
+        (isVerb n = true → StartsOpener y) →
+        htmlTokenize? (serialize n ++ y) = some (tokensOf textToks n ++ ts', r) ∧
+        (isVerb n = false → StartsOpener (serialize n))
+    | .verb raw m, h, y, ts', r, hy, hop => by
+      simp only [simpleN, Bool.and_eq_true, Bool.not_eq_true', List.isEmpty_eq_false_iff, ne_eq] at h
+      obtain ⟨c, rest, hy0, hc⟩ := hop rfl
+      have h60 : ∀ b ∈ raw, b ≠ 60 := by
+        intro b hb e; subst e
+        have := h.2
+        simp only [List.contains_eq_mem, decide_eq_false_iff_not] at this
+        exact this hb
+      refine ⟨?_, fun hv => by simp [isVerb] at hv⟩
+      have := htmlTokenize?_text h.1 h60 hy0 hc hy
+      simp only [serialize, tokensOf, textToks]
+      have hne : raw.isEmpty = false := by cases raw with
+        | nil => exact absurd rfl h.1
+        | cons _ _ => rfl
+      simpa [hne] using this
+    | .el nm d at_ knd cs, h, y, ts', r, hy, _ => by
+      cases knd with
+      | raw => simp [simpleN] at h
+      | void =>
+        simp only [simpleN] at h
+        obtain ⟨hc, ho⟩ := vocab_start V hV h
+        refine ⟨?_, fun _ => by simpa [serialize, startTok] using ho⟩
+        have := htmlTokenize?_append hc hy
+        simpa [serialize, tokensOf, startTok] using this
+      | selfClosing =>
+        simp only [simpleN] at h
+        obtain ⟨hc, ho⟩ := vocab_self V hV h
+        refine ⟨?_, fun _ => by simpa [serialize, selfTok] using ho⟩
+        have := htmlTokenize?_append hc hy
+        simpa [serialize, tokensOf, selfTok] using this
+      | normal =>
+        simp only [simpleN, Bool.and_eq_true] at h
+        obtain ⟨⟨hs, he⟩, hcs⟩ := h
+        obtain ⟨hcS, hoS⟩ := vocab_start V hV hs
+        have hcE := vocab_end V hV he
+        -- the end tag, then what follows
+        have h1 := htmlTokenize?_append hcE hy
+        -- the children, followed by the end tag
+        have h2 := simpleL_tok cs hcs ((endTok nm d).raw ++ y) _ r h1
+          (fun _ => startsOpener_append (startsOpener_endTok nm d) y)
+        -- the start tag
+        have h3 := htmlTokenize?_append hcS h2
+        refine ⟨?_, fun _ => ?_⟩
+        · simp only [serialize, tokensOf]
+          simp only [startTok, endTok] at h3 ⊢
+          simpa [List.append_assoc] using h3
+        · have := startsOpener_append hoS (serializeList cs ++ (endTok nm d).raw)
+          simpa [serialize, startTok, endTok, List.append_assoc] using this
+  theorem simpleL_tok : ∀ (ns : List Node), simpleL V ns = true →
+      ∀ (y : Bytes) (ts' : List Tok) (r : Bytes), htmlTokenize? y = some (ts', r) →
+        (lastIsVerb ns = true → StartsOpener y) →
+        htmlTokenize? (serializeList ns ++ y) = some (tokensOfList textToks ns ++ ts', r)
+    | [], _, y, ts', r, hy, _ => by simpa [serializeList, tokensOfList] using hy
+    | [n], h, y, ts', r, hy, hop => by
+      simp only [simpleL, Bool.and_eq_true] at h
+      have := (simpleN_tok n h.1.1 y ts' r hy (fun hv => hop (by simpa [lastIsVerb] using hv))).1
+      simpa [serializeList, tokensOfList] using this
+    | n :: m :: rest, h, y, ts', r, hy, hop => by
+      simp only [simpleL, Bool.and_eq_true, Bool.not_eq_true', Bool.and_eq_false_imp] at h
+      obtain ⟨⟨hn, hadj⟩, hrest⟩ := h
+      have ih := simpleL_tok (m :: rest) (by simpa [simpleL, Bool.and_eq_true] using hrest) y ts' r hy
+        (fun hv => hop (by simpa [lastIsVerb] using hv))
+      -- what follows `n` starts with the first tag of `m` when `n` is a text
+      have hfollow : isVerb n = true → StartsOpener (serializeList (m :: rest) ++ y) := by
+        intro hv
+        have hm : isVerb m = false := hadj hv
+        have hmS : simpleN V m = true := hrest.1.1
+        have := (simpleN_tok m hmS [] [] [] htmlTokenize?_nil (fun hv' => by rw [hm] at hv'; cases hv')).2 hm
+        simpa [serializeList, List.append_assoc] using startsOpener_append this (serializeList rest ++ y)
+      have := (simpleN_tok n hn _ _ r ih hfollow).1
+      simpa [serializeList, tokensOfList, List.append_assoc] using this
+end
+
+mutual
+  /-- the text tokens of such a document hold no `<` -/
+  theorem simpleN_noLt : ∀ (n : Node), simpleN V n = true →
+      ∀ t ∈ tokensOf textToks n, ¬(t.kind = .text ∧ hasLt t.raw = true)
+    | .verb raw m, h, t, ht => by
+      simp only [simpleN, Bool.and_eq_true, Bool.not_eq_true'] at h
+      simp only [tokensOf, textToks] at ht
+      split at ht
+      · cases ht
+      · simp only [List.mem_cons, List.not_mem_nil, or_false] at ht
+        subst ht
+        intro hh
+        have := hh.2
+        simp only [hasLt] at this
+        rw [h.2] at this; cases this
+    | .el nm d at_ knd cs, h, t, ht => by
+      cases knd with
+      | raw => simp [simpleN] at h
+      | void => simp [tokensOf] at ht; subst ht; simp [startTok]
+      | selfClosing => simp [tokensOf] at ht; subst ht; simp [selfTok]
+      | normal =>
+        simp only [simpleN, Bool.and_eq_true] at h
+        simp only [tokensOf, List.mem_cons, List.mem_append, List.not_mem_nil, or_false] at ht
+        rcases ht with e | e | e
+        · subst e; simp [startTok]
+        · exact simpleL_noLt cs h.2 t e
+        · subst e; simp [endTok]
+  theorem simpleL_noLt : ∀ (ns : List Node), simpleL V ns = true →
+      ∀ t ∈ tokensOfList textToks ns, ¬(t.kind = .text ∧ hasLt t.raw = true)
+    | [], _, t, ht => by simp [tokensOfList] at ht
+    | n :: ns, h, t, ht => by
+      simp only [simpleL, Bool.and_eq_true] at h
+      simp only [tokensOfList, List.mem_append] at ht
+      rcases ht with e | e
+      · exact simpleN_noLt n h.1.1 t e
+      · exact simpleL_noLt ns h.2 t e
+end
+
+theorem splitHeld_of_noLt {ts : List Tok} (h : ∀ t ∈ ts, ¬(t.kind = .text ∧ hasLt t.raw = true)) :
+    splitHeld ts = (ts, []) := by
+  unfold splitHeld
+  cases hl : ts.getLast? with
+  | none =>
+    have : ts = [] := by simpa using hl
+    subst this; rfl
+  | some t =>
+    simp only
+    have hm : t ∈ ts := List.mem_of_getLast? hl
+    rw [if_neg (h t hm)]
+
+/-- **byte level, universal on the class**: every document over a checked vocabulary — text free of `<`, no two
+adjacent text nodes, not ending with a text — is tokenised to `tokensOfList textToks doc`, whatever its shape and size. -/
+theorem tokenize_serialize_simple (doc : List Node) (hs : simpleL V doc = true) (hl : lastIsVerb doc = false) :
+    htmlTokenize (serializeList doc) = (tokensOfList textToks doc, []) := by
+  have := simpleL_tok V hV doc hs [] [] [] htmlTokenize?_nil (fun hv => by rw [hl] at hv; cases hv)
+  simp only [List.append_nil] at this
+  simp [htmlTokenize, this]
+
+/-- … hence `TokAgree` (given valid UTF-8): the bridge hypothesis of the token-level theorems holds on the class -/
+theorem tokAgree_simple (doc : List Node) (hs : simpleL V doc = true) (hl : lastIsVerb doc = false)
+    (hu : utf8Split (serializeList doc) = some (serializeList doc, [])) :
+    TokAgree htmlTokenize textToks doc :=
+  ⟨tokenize_serialize_simple V hV doc hs hl, hu, splitHeld_of_noLt V hV (simpleL_noLt V hV doc hs)⟩
+
+end
+
+theorem textToks_lossless : VtLossless textToks := rawsOf_textToks
 
 end Rio.Filter
